@@ -283,7 +283,7 @@ pub fn run(env: &Env) -> Rec {
     // every single code point, with rotating property fields
     let all: Vec<CsvProp> = CSV_PROP_NAMES.iter().map(|x| x.1).collect();
     let chunk = 0x1000usize;
-    let step = if env.quick() { 5 } else { 1 };
+    let step = 1;
     let r1 = par(0x110000 / chunk, |i, rec| {
         for cp in ((i * chunk) as u32..((i + 1) * chunk) as u32).filter(|c| (*c as usize + env.seed as usize) % step == 0) {
             let p1 = all[cp as usize % 7];
@@ -319,7 +319,7 @@ pub fn run(env: &Env) -> Rec {
     }
     rec.exhaustive("all 7 property names and all 49 ordered pairs");
     // random rows, their malformed variants, and whole files
-    let n = env.n(300_000, 10_000_000);
+    let n = env.n(2_000_000, 50_000_000);
     let per = 2000usize;
     let r2 = par(n.div_ceil(per), |c, rec| {
         let mut rng = Rng::stream(env.seed, 0x17_0000 + c as u64);
